@@ -56,6 +56,16 @@ def replay(prop, path):
                     return 0 if h['status'] == 'success' else 2
             print('harness no longer registered')
             return 2
+        if rec.get('backend') == 'xrun':
+            import xrun_run
+            _, suite, case = rec['obligation'].split('::', 2)
+            xr = xrun_run.run_suite(suite, scratch, 'thorough', only=case)
+            print('xrun %s --only %s: %s' % (suite, case, xr['status']))
+            if xr['status'] == 'failed':
+                for fl in xr['failures']:
+                    print('STILL FAILS on the real code:', json.dumps(fl))
+                return 1
+            return 0 if xr['status'] == 'success' else 2
         print('no replay procedure for backend', rec.get('backend'))
         return 2
     finally:
